@@ -186,7 +186,11 @@ FixRows(stmt, base, rows) ==
           IF GroupCol(stmt, j) /\ j <= Len(base[1]) THEN AsContractKind(base[1][j], rows[i][j]) ELSE rows[i][j]]]
 
 \* ... B variants take the base rows already computed (TLC does not memoise operator applications)
+\* does the expression call function f anywhere ?
+RECURSIVE Calls(_, _)
+Calls(e, f) == (e.k = "call" /\ e.op = f) \/ \E i \in 1..Len(e.a) : Calls(e.a[i], f)
 ModelledB(stmt, store, base) ==
+  /\ ~\E i \in 1..Len(stmt.fields) : Calls(stmt.fields[i].e, "quantile")      \* approximate by definition; percent rules are the engine's own
   /\ Evaluable(store, stmt.where, EnvOf(stmt))
   /\ \A i \in 1..Len(base) : ~RowBad(base[i])
   /\ (IsAggStmt(stmt) /\ stmt.group # <<>>) =>
